@@ -96,6 +96,7 @@ def check_case(ctx, case):
     from csep.core.forecasts import CatalogForecast
     import csep
     S = G.Setup(case["setup"])
+    SEED = numpy.int64(case["seed"]) if case.get("np_seed") else case["seed"]      # seeds are integers: Python int or numpy integer
     VB = bool(case.get("verbose"))     # progress output on: same results (stdout of a shard goes to devnull)
     if VB:
         ctx.count("cases_with_verbose_on")
@@ -143,6 +144,22 @@ def check_case(ctx, case):
 
         def observed():
             return S.catalog(S.region(), obs=obs)
+
+        def observed_m():
+            """for the magnitude tests: the observed catalog may hold events below the first magnitude edge (a catalog not cut at the
+            forecast's minimum magnitude); they are in no magnitude bin, the tests work with the events that are"""
+            if not (case.get("obs_below_min") and n_obs):
+                return observed()
+            from csep.core.catalogs import CSEPCatalog
+            region = S.region()
+            evs = [S.event(i, k, m) for i, (k, m) in enumerate(obs)]
+            extra = []
+            for q in range(1 + n_obs % 3):
+                e = list(S.event(5000 + q, obs[0][0], 0))
+                e[0] = "lowmag%d" % q
+                e[5] = S.edges[0] - S.hm * (0.5 + q)
+                extra.append(tuple(e))
+            return CSEPCatalog(data=evs[:1] + extra + evs[1:], region=region, name="obs")
 
         # ---------------- expected rates
         o = call(lambda: forecast().get_expected_rates())
@@ -254,8 +271,8 @@ def check_case(ctx, case):
         def d_stat(hist, n_hist):
             return math.fsum((math.log10(union[k] / J * (n_obs / (nu / J)) + 1) - math.log10(hist[k] * (n_obs / n_hist) + 1)) ** 2 for k in range(S.nm))
 
-        for name, fn, kw in (("M", CE.magnitude_test, {}), ("resampledM", CE.resampled_magnitude_test, {"seed": case["seed"]}), ("MLL", CE.MLL_magnitude_test, {"seed": case["seed"]})):
-            o = call(fn, forecast(), observed(), verbose=VB, **kw)
+        for name, fn, kw in (("M", CE.magnitude_test, {}), ("resampledM", CE.resampled_magnitude_test, {"seed": SEED}), ("MLL", CE.MLL_magnitude_test, {"seed": SEED})):
+            o = call(fn, forecast(), observed_m(), verbose=VB, **kw)
             if not o.ok:
                 if name != "M" and S.nm < 2:
                     ctx.count("skipped:single_magnitude_bin_resampled_tests")
@@ -312,8 +329,8 @@ def check_case(ctx, case):
                                                                        "n_not_valid": len(all_results) - len(valid)})
         # ---------------- MLL with full_calculation=True (resamples from the union of magnitudes): defined for any N_obs
         if n_obs > 0 and S.nm >= 2:
-            o1 = call(CE.MLL_magnitude_test, forecast(), observed(), full_calculation=True, seed=case["seed"])
-            o2 = call(CE.MLL_magnitude_test, forecast(), observed(), full_calculation=True, seed=case["seed"])
+            o1 = call(CE.MLL_magnitude_test, forecast(), observed(), full_calculation=True, seed=SEED)
+            o2 = call(CE.MLL_magnitude_test, forecast(), observed(), full_calculation=True, seed=SEED)
             if not o1.ok or not o2.ok:
                 ctx.unexpected(o1 if not o1.ok else o2, "MLL_full_calculation" + (":more_observed_than_forecast_events" if n_obs > nu else ""))
             elif ctx.normalize("MLL_full", lambda: ([float(x) for x in o1.value.test_distribution], [float(x) for x in o2.value.test_distribution],
@@ -322,7 +339,7 @@ def check_case(ctx, case):
                 if len(t1) != J or any(math.isnan(x) or math.isinf(x) for x in t1):
                     ctx.violation("MLL_full:distribution_size_or_finiteness", {"n": len(t1), "J": J})
                 if t1 != [float(x) for x in o2.value.test_distribution]:
-                    ctx.violation("MLL_full:not_deterministic_for_seed", {"seed": case["seed"]})
+                    ctx.violation("MLL_full:not_deterministic_for_seed", {"seed": SEED})
                 if not rel(float(o1.value.observed_statistic), mll(union.tolist(), mobs.tolist())):
                     ctx.violation("MLL_full:observed_statistic_wrong", {"got": float(o1.value.observed_statistic)})
 
@@ -364,7 +381,9 @@ def cases(draw):
             "seed": draw(st.sampled_from([0, 1, 12345])), "obs_class": cls, "verbose": draw(st.integers(0, 3)) == 0,
             **({"repeat": draw(st.sampled_from([10, 25]))} if draw(st.integers(0, 11)) == 0 else {}),
             **({"np_divide_raise": True} if draw(st.integers(0, 3)) == 0 else {}),
-            **({"filtered_extra": True} if draw(st.integers(0, 2)) == 0 else {})}
+            **({"filtered_extra": True} if draw(st.integers(0, 2)) == 0 else {}),
+            **({"np_seed": True} if draw(st.integers(0, 2)) == 0 else {}),
+            **({"obs_below_min": True} if draw(st.integers(0, 2)) == 0 else {})}
 
 
 def run(ctx):
